@@ -757,6 +757,43 @@ func r159(c *Ctx, r *R) {
 			return out
 		}
 		norm := func(s string) string { return strings.ToLower(strings.ReplaceAll(s, "_", "")) }
+		// namesakes: the JSON field with the same (normalised) name as a
+		// configuration field, and the reverse
+		jsonNames, cfgNames := map[string]string{}, map[string]string{}
+		var collect func(st *types.Struct, into map[string]string, depth int)
+		collect = func(st *types.Struct, into map[string]string, depth int) {
+			for i := 0; i < st.NumFields(); i++ {
+				f := st.Field(i)
+				into[norm(f.Name())] = f.Name()
+				ft := f.Type()
+				if p, ok := ft.(*types.Pointer); ok {
+					ft = p.Elem()
+				}
+				if nt, ok := ft.(*types.Named); ok && depth < 2 && nt.Obj().Pkg() == pkg.Types {
+					if s2, ok := nt.Underlying().(*types.Struct); ok {
+						collect(s2, into, depth+1)
+					}
+				}
+			}
+		}
+		collect(J.Underlying().(*types.Struct), jsonNames, 0)
+		if st, ok := cc.t.Underlying().(*types.Struct); ok {
+			collect(st, cfgNames, 0)
+		}
+		jsonNamesake := func(cfgField string) string {
+			for jf, g := range c15Pairs {
+				if strings.HasPrefix(jf, label+".") && g == cfgField {
+					return strings.TrimPrefix(jf, label+".")
+				}
+			}
+			return jsonNames[norm(cfgField)]
+		}
+		cfgNamesake := func(jsonField string) string {
+			if g, ok := c15Pairs[label+"."+jsonField]; ok {
+				return g
+			}
+			return cfgNames[norm(jsonField)]
+		}
 		check := func(side, jf string, cfs []string, pos token.Pos) {
 			if len(cfs) == 0 {
 				return
@@ -768,7 +805,15 @@ func r159(c *Ctx, r *R) {
 					return
 				}
 			}
-			r.Bad(key, pos, "on the %s side the JSON setting %s is paired with configuration field(s) %v, none of which is the same setting: the value of another setting is written in its place", side, jf, cfs)
+			// a differently named partner is a naming choice; a partner
+			// that is the namesake of ANOTHER JSON setting is a crossing
+			for _, g := range cfs {
+				if other := jsonNamesake(g); other != "" && norm(other) != norm(jf) {
+					r.Bad(key, pos, "on the %s side the JSON setting %s is paired with the configuration field %s, which belongs to the setting %s: the value of another setting is written in its place", side, jf, g, other)
+					return
+				}
+			}
+			r.OK(key, pos, "paired with differently named configuration field(s) %v that belong to no other setting", cfs)
 		}
 		for _, d := range funcsCalledFrom(c.P, pkg, saveRoot) {
 			ast.Inspect(d.Body, func(n ast.Node) bool {
@@ -822,7 +867,18 @@ func r159(c *Ctx, r *R) {
 									if ok {
 										r.OK(key, x.Pos(), "loaded from the JSON field of the same setting")
 									} else {
-										r.Bad(key, x.Pos(), "on the load side the configuration field %s is assigned from JSON field(s) %v, none of which is the same setting", cf, js)
+										crossed := ""
+										for _, j := range js {
+											// j has a namesake configuration field other than cf
+											if cfgNamesake(j) != "" && norm(cfgNamesake(j)) != norm(cf) {
+												crossed = j
+											}
+										}
+										if crossed != "" {
+											r.Bad(key, x.Pos(), "on the load side the configuration field %s is assigned from the JSON field %s, which belongs to another setting", cf, crossed)
+										} else {
+											r.OK(key, x.Pos(), "loaded from differently named JSON field(s) %v that belong to no other setting", js)
+										}
 									}
 								}
 							}
